@@ -11,6 +11,14 @@ import ast
 from .srcmodel import Unknown, FuncRef, Regex, func_params
 
 
+class _Break(Exception):
+    pass
+
+
+class _Continue(Exception):
+    pass
+
+
 class _Return(Exception):
     def __init__(self, value):
         self.value = value
@@ -84,6 +92,31 @@ class _Interp(object):
             self.expr(st.value)
         elif isinstance(st, ast.Pass):
             pass
+        elif isinstance(st, ast.While):
+            fuel = 10000
+            while self.expr(st.test):
+                fuel -= 1
+                if fuel <= 0:
+                    raise Unknown("loop bound exceeded")
+                try:
+                    self.block(st.body)
+                except _Break:
+                    break
+                except _Continue:
+                    continue
+        elif isinstance(st, ast.For):
+            for x in list(self.expr(st.iter)):
+                self.assign(st.target, x)
+                try:
+                    self.block(st.body)
+                except _Break:
+                    break
+                except _Continue:
+                    continue
+        elif isinstance(st, ast.Break):
+            raise _Break()
+        elif isinstance(st, ast.Continue):
+            raise _Continue()
         else:
             raise Unknown("statement %s" % type(st).__name__)
 
@@ -197,6 +230,11 @@ class _Interp(object):
                         raise Unknown("method raised %s" % e)
                 if isinstance(base, (dict,)) and f.attr in ("get", "items", "keys", "values"):
                     return getattr(base, f.attr)(*args)
+                if isinstance(base, list) and f.attr in ("append", "pop", "extend", "index", "count"):
+                    try:
+                        return getattr(base, f.attr)(*args)
+                    except Exception as e:
+                        raise Unknown("list method raised %s" % e)
                 if isinstance(base, Regex) and f.attr in ("match", "search", "fullmatch", "sub"):
                     # constant folding of a regex constant applied to a constant string (stdlib re, no ural code)
                     import re as _re
@@ -217,6 +255,8 @@ class _Interp(object):
                 if isinstance(v, FuncRef):
                     return run_function(self.repo, v, args, kwargs, self.depth + 1)
                 raise Unknown("call of local value")
+            if f.id == "reversed":
+                return list(reversed(list(args[0])))
             if f.id in ("len", "str", "int", "bool", "all", "any", "tuple", "list", "sorted", "min", "max", "callable", "isinstance"):
                 if f.id == "callable":
                     return isinstance(args[0], FuncRef)
